@@ -4,6 +4,7 @@ Imports model files only (no Mathlib, no proofs) so that it can be compiled.
 -/
 import Lean.Data.Json
 import NostrRelay.Model.RateLimiter
+import NostrRelay.Model.Notifier
 
 open Lean
 
@@ -48,6 +49,19 @@ def dumpState (s : State) : Json :=
 
 end RL
 
+/-! ### hex helpers -/
+def hexDigit (n : Nat) : Char := if n < 10 then Char.ofNat (48 + n) else Char.ofNat (87 + n)
+def toHex (b : List Nat) : String := String.ofList (b.flatMap fun x => [hexDigit (x / 16), hexDigit (x % 16)])
+def unhexDigit (c : Char) : Nat :=
+  if '0' ≤ c ∧ c ≤ '9' then c.toNat - 48 else if 'a' ≤ c ∧ c ≤ 'f' then c.toNat - 87 else if 'A' ≤ c ∧ c ≤ 'F' then c.toNat - 55 else 0
+partial def fromHexAux : List Char → List Nat
+  | a :: b :: rest => (unhexDigit a * 16 + unhexDigit b) :: fromHexAux rest
+  | _ => []
+def fromHex (s : String) : List Nat := fromHexAux s.toList
+def hexList (j : Json) (k : String) : List (List Nat) :=
+  (getArr j k).toList.map fun x => fromHex (x.getStr?.toOption.getD "")
+def jHexList (l : List (List Nat)) : Json := Json.arr (l.map (fun b => Json.str (toHex b))).toArray
+
 structure St where
   rlCfg : NostrRelay.RateLimiter.Config := {}
   rl : NostrRelay.RateLimiter.State := {}
@@ -63,6 +77,8 @@ def step (st : St) (j : Json) : St × Json :=
   | "rl.dump" => (st, RL.dumpState st.rl)
   | "rl.parseInterval" =>
     (st, match NostrRelay.RateLimiter.parseInterval (getStr j "s") with | some i => Json.num (JsonNumber.fromInt i) | none => Json.str "raise")
+  | "nt.read" => (st, jHexList (NostrRelay.Notifier.readLoop 32 (by decide) [] (hexList j "chunks")))
+  | "nt.readOld" => (st, jHexList (NostrRelay.Notifier.readLoopOld 32 (by decide) [] (hexList j "chunks")))
   | op => (st, Json.mkObj [("error", Json.str ("unknown op " ++ op))])
 
 partial def loop (h : IO.FS.Stream) (out : IO.FS.Stream) (st : St) : IO Unit := do
